@@ -131,6 +131,16 @@ def flat_of(circ: Circuit, params: Any = None) -> tuple:
     return tuple(out)
 
 
+def flat_iter(circ: Circuit) -> tuple:
+    """Per-qudit timelines in ITERATION order (the order get_unitary multiplies in), CircuitGates
+    expanded. Equal to flat_of() exactly when iteration is complete and compatible with the grid."""
+    lines: list[list] = [[] for _ in range(circ.num_qudits)]
+    for c, op in circ.operations_with_cycles():
+        for j, q in enumerate(op.location):
+            lines[q].extend(_flat_op(op, j))
+    return tuple(tuple(x) for x in lines)
+
+
 def check_invariant(circ: Circuit, where: str = '') -> None:
     """C05 representation invariant through the public read API. Raises Viol."""
     W = circ.num_qudits
